@@ -89,6 +89,11 @@ int main(int argc, char** argv)
                         }
                         Report r = info.fork_per_case ? execute_forked(v, info.watchdog_ms) : execute_inprocess(v);
                         st.account(r);
+                        if (r.inconclusive && !a.replay_out.empty() && st.inconclusive == 1)
+                        {
+                          // keep the first inconclusive (watchdog) case for triage; never reported as a violation
+                          write_replay(a.replay_out + ".inconclusive", info.name, a.params, v, r);
+                        }
                         if (r.failed)
                         {
                           if (!r.known_class.empty())
